@@ -53,7 +53,7 @@ CLAIMED = {
         '§4 C06'),
     'C07': (
         'explicit-state fixpoint BFS over the real TokenStore at load factors 2..7 (state = block layout + caches), '
-        'lock-step plain-list reference; band of splices at the default thresholds',
+        'lock-step plain-list reference; band of splices at the default thresholds; load-factor differential of every depth-1 document edit',
         'All reachable block layouts under a token cap are enumerated for each small load factor and every API call is '
         'executed from every one of them against a plain list; this is the level at which split/merge/renumber bugs live.',
         'Token texts abstracted to classes {x, newline}; stores up to cap tokens; thresholds re-derived from the tree\'s own formulas.',
@@ -79,6 +79,13 @@ CLAIMED = {
         'compared with list semantics on the projection, the complement order, and every view re-derived from the raw list.',
         'List length capped at 2 (quick) / 3 (thorough); reverse() on node views is refused by design (a node cannot be in two places).',
         '§4 C10'),
+    'C11': (
+        'exhaustive enumeration: deepcopy of every model and token at every depth of every corpus document (both attribution modes, '
+        'and after each single claim/unclaim call), then every edit op on the copy and on the original with full snapshots compared',
+        'Every model of the closed small world is copied; equality, exact text, token disjointness, own store, tree invariant and '
+        'independence in both directions are checked for each.',
+        'Independence is judged on snapshots (text, token identities, tree signature, view tables).',
+        '§4 C11'),
     'C12': (
         'exhaustive enumeration of values/lexemes up to a length bound over adversarial alphabets (all calendar dates in thorough), '
         'terminal regexps taken from the live grammar; BFS over value/raw_text/indent assignment sequences',
@@ -86,6 +93,13 @@ CLAIMED = {
         'real lexer / a one-directive file parse.',
         'Value domain = image of the parse function (DESIGN §4 C12); alphabets are representatives of lexer character classes.',
         '§4 C12'),
+    'C13': (
+        'exhaustive enumeration of expression texts up to 3/4 nodes and of all operator applications over the <=1/2-node sets '
+        '(plain, reflected, in-place; int/Decimal/expression; free and attached operands; chains), independent recursive-descent evaluator',
+        'Every expression tree within the bound is evaluated by the implementation and by an independent evaluator over the text; '
+        'every operator application is compared with Decimal arithmetic, re-parsed, and its operands/documents snapshotted.',
+        'Literals {1, 2.5, 0, 1,000}; the (2,2)-node pair product is restricted as reported in caps_hit.',
+        '§4 C13'),
     'C14': (
         'exhaustive enumeration of comment layouts <= n lines with an independent token-level attribution reference; per-document '
         'fixpoint BFS over all claim/unclaim/auto-claim calls with the ownership invariant in every state',
@@ -93,6 +107,21 @@ CLAIMED = {
         'the reference rules R1-R3; every reachable attribution state keeps "at most one owner, flag agrees".',
         'Same indentation is read as same indentation class; the hosting field of a standalone comment is not compared.',
         '§4 C14'),
+    'C15': (
+        'signature-driven exhaustive enumeration of from_value/from_children argument combinations for all tree classes (full product '
+        'below a size bound, t-wise above), print -> parse -> structural comparison, tree invariant, also inside a File',
+        'Every constructor is driven over every subset of optional arguments, list sizes 0..2, escape-needing strings, negative '
+        'numbers and the custom-value disambiguation cases.',
+        'Large constructors are covered pairwise / 3-wise / 4-wise (reported per constructor, exhaustive=false).',
+        '§4 C15'),
+    'C16': (
+        'exhaustive enumeration of small directory worlds (include graphs <= 3-4 files incl. cycles/globs/two spellings x LF/CRLF x path '
+        'spellings x edited/removed/added subsets x raising bodies) executed on the real Editor and file system against a byte/mtime-exact '
+        'dictionary model',
+        'Every world of the bounded product is built on a tmpfs directory, edited through the real context managers and compared '
+        'byte for byte (and mtime/inode for untouched files).',
+        'Faults other than "body raises" and "include matches nothing" are not injected; k=3/4 products are pruned as listed in bounds.',
+        '§4 C16'),
     'C17': (
         'exhaustive enumeration of (document, model/token, side, spacing string) with an independent token-level reference for the run',
         'Every spacing getter and every setter with all 21 strings of <= 2 atoms is executed on every model and token of every '
@@ -105,6 +134,20 @@ CLAIMED = {
         'The space is finite and small; it is enumerated completely.',
         'Siblings with different indents and comment-only lists are counted, not judged.',
         '§4 C18'),
+    'C19': (
+        'exhaustive enumeration of refusing calls from every parsed state (and every depth-1 state in thorough): whole edit alphabet with '
+        'invalid arguments, attached nodes at every batch position, duplicates, bad raw texts, claim calls; snapshot-equality oracle',
+        'Every call of the alphabet is made with every donor position replaced by a node that lives elsewhere; an attached node must '
+        'be refused and any raising call must leave the full snapshot of both documents unchanged.',
+        'Calls that succeed are not judged; views are read before the pre-call snapshot.',
+        '§4 C19'),
+    'C20': (
+        'exhaustive pairwise comparison over the pool of all sub-models of all corpus texts (within texts, across texts, across '
+        'attribution modes) and every single API perturbation, against the (type, text, structure-signature) reference',
+        'a == b is compared with the independent reference on every pair of the pool and on every (pristine, perturbed) ancestor '
+        'pair, in both orders, with hash consistency for tokens.',
+        'Structure signature is read from the field descriptors.',
+        '§4 C20'),
 }
 
 PENDING_REASON = 'check not implemented yet in this commit (planned: see DESIGN.md §4); not claimed until it runs'
